@@ -93,6 +93,7 @@ def run(tier):
     # correspondence + oracle on real trees
     stmts = sqlgen.corpus_statements()
     stmts += sqlgen.generated_statements(rng, 600 if tier == "quick" else 6000)
+    stmts += sqlgen.SPECIAL + sqlgen.deep_statements(tier)
     inp = "".join(json.dumps({"sql": s}) + "\n" for s in stmts)
     p = common.vh(["walk"], input=inp, timeout=1200)
     results = [json.loads(l) for l in p.stdout.splitlines() if l.strip()]
@@ -105,7 +106,7 @@ def run(tier):
     miss_new = {}
     for r in accepted:
         shape = tuple((n["ty"], n["parent"], n["field"]) for n in r["nodes"])
-        if len(r["nodes"]) > 2:
+        if 2 < len(r["nodes"]) < 3000:
             seen_shapes.add(shape)
         for n in r["nodes"]:
             types_seen.add(n["ty"])
